@@ -168,6 +168,24 @@ func workerMain(args []string) int {
 		if jf != nil {
 			fmt.Fprintf(jf, "BEGIN %d\n", i)
 		}
+		// a run normally takes milliseconds; one that is still going after a long
+		// real-time limit is reported to the parent as a suspected hang (the parent
+		// re-executes it alone, twice, before saying anything)
+		hangLimit := 40 * time.Second
+		if *prop == "C17" {
+			hangLimit = 10 * time.Minute
+		}
+		if *prop == "C16" {
+			hangLimit = 3 * time.Minute
+		}
+		runIdx := i
+		wd := time.AfterFunc(hangLimit, func() {
+			if jf != nil {
+				fmt.Fprintf(jf, "HANG %d\n", runIdx)
+			}
+			os.Exit(4)
+		})
+		defer wd.Stop()
 		if *isolate {
 			// one process per run: nothing a run leaves behind in package-level state
 			// can reach the next one, so a run re-executed alone is the same run
@@ -195,6 +213,7 @@ func workerMain(args []string) int {
 			if len(wo.Samples) < 3 {
 				isoSamples = append(isoSamples, one.Samples...)
 			}
+			wd.Stop()
 			continue
 		}
 		tr := genTrace(*prop, *seed, i, o)
@@ -297,6 +316,7 @@ func workerMain(args []string) int {
 				}
 			}
 		}
+		wd.Stop()
 		if v != nil {
 			nviol++
 			if nviol >= 20 {
